@@ -67,6 +67,89 @@ pub struct Codec {
     pub decode: DecFn,
     pub decode_only: DecOnlyFn,
     pub samples: SamplesFn,
+    /// `Some(f)`: `f(input)` is true when feeding `input` to this decoder *in-process* is known to
+    /// be unsafe (defect D4: allocation from a declared length).  C12 skips and counts such inputs
+    /// (they can never be valid encodings); C13 runs them in a child process instead.
+    pub unsafe_in_process: Option<fn(&[u8]) -> bool>,
+}
+
+impl Codec {
+    pub fn with_prefilter(mut self, f: fn(&[u8]) -> bool) -> Self {
+        self.unsafe_in_process = Some(f);
+        self
+    }
+}
+
+/// True when, reading `b` sequentially as definite-length CBOR, the first structural problem met
+/// is an array/map header whose declared count exceeds the number of remaining input bytes (every
+/// element needs ≥ 1 byte, so such an input is never a valid encoding).  `skip` = bytes of
+/// non-CBOR prefix (EINT header).
+pub fn cbor_count_exceeds_input(b: &[u8]) -> bool {
+    let mut pos = 0usize;
+    // number of items still expected at each open level
+    let mut pending: Vec<u64> = vec![1];
+    while let Some(top) = pending.last_mut() {
+        if *top == 0 {
+            pending.pop();
+            continue;
+        }
+        *top -= 1;
+        let Some(&b0) = b.get(pos) else { return false };
+        pos += 1;
+        let major = b0 >> 5;
+        let info = b0 & 0x1f;
+        let n = match info {
+            0..=23 => 0usize,
+            24 => 1,
+            25 => 2,
+            26 => 4,
+            27 => 8,
+            _ => return false,
+        };
+        if b.len() - pos < n {
+            return false;
+        }
+        let mut arg = u64::from(info);
+        if n > 0 {
+            arg = 0;
+            for i in 0..n {
+                arg = (arg << 8) | u64::from(b[pos + i]);
+            }
+            pos += n;
+        }
+        let remaining = (b.len() - pos) as u64;
+        match major {
+            0 | 1 | 7 => {}
+            2 | 3 => {
+                if arg > remaining {
+                    return false;
+                }
+                pos += arg as usize;
+            }
+            4 => {
+                if arg > remaining {
+                    return true;
+                }
+                pending.push(arg);
+            }
+            5 => {
+                if arg > remaining {
+                    return true;
+                }
+                pending.push(arg.saturating_mul(2));
+            }
+            _ => return false,
+        }
+        if pending.len() > 100_000 {
+            return true;
+        }
+    }
+    false
+}
+
+/// Same, for an EINT v1 envelope carrying CBOR.
+pub fn eint_cbor_count_exceeds_input(b: &[u8]) -> bool {
+    b.len() > 12 && cbor_count_exceeds_input(&b[12..])
 }
 
 /// Typed sample before erasure.
@@ -158,7 +241,7 @@ where
             })
             .collect()
     });
-    Codec { name: name.to_string(), group, canonical, min_len, anchor, decode, decode_only, samples }
+    Codec { name: name.to_string(), group, canonical, min_len, anchor, decode, decode_only, samples, unsafe_in_process: None }
 }
 
 /// The full table (order is stable; names are unique).
